@@ -28,6 +28,5 @@ with open(os.path.join(V, "seeded", "INDEX.md"), "w") as f:
         f.write("| %s | %s | %s | %s | %s | %s | %s |\n" % r)
     n_c = sum(1 for r in rows if r[3] == "caught")
     n_f = sum(1 for r in rows if r[2] == "caught")
-    f.write("\n%d of %d seeded changes caught by the check of the property they break (%d at first sight, before any strengthening prompted by that wave; "
-            "for the first two waves the first verdicts of C02_1, C11_1, C05_1, C19_1, C16_1 were `missed`, see DESIGN.md).\n" % (n_c, len(rows), n_f))
+    f.write("\n%d of %d seeded changes caught by the check of the property they break (%d at first sight, i.e. by the checks as they stood before the strengthening that the seed prompted; see result_first.json and DESIGN.md 7.2).\n" % (n_c, len(rows), n_f))
 print(len(rows))
